@@ -5,6 +5,7 @@ from .vals import *
 from .state import State, Unsupported, Ev
 from .exec import Executor, Outcome, Frame
 from .calls import Calls
+from .conc import Conc
 from .models import MODELS
 from .spec import parse_contracts, parse_expr, SpecError, Decl, Clause
 from .speceval import SpecCtx, uses_trace, match_name
@@ -36,7 +37,7 @@ class Obl:
         return "discharged" if self.instances else "no-instance"
 
 
-class Engine(Executor, Calls):
+class Engine(Conc, Executor, Calls):
     def __init__(self, ir, timeout_ms=10000):
         self.ir = ir
         self.timeout_ms = timeout_ms
@@ -59,6 +60,7 @@ class Engine(Executor, Calls):
         self.init_written = set()
         self.fsm = None
         self._index()
+        self.index_locks()
         self._scan_global_writes()
 
     # ------------------------------------------------------------------ contract index
@@ -129,8 +131,16 @@ class Engine(Executor, Calls):
                     t = self.resolve_type_name(d.name, d.pkg)
                     d.attrs["full"] = t
                     self.type_invs[t] = d
+                    locknames = [c.text.split()[0] for c in d.clauses if c.kind == "lock" and c.text.split()]
                     for cl in d.clauses:
                         if cl.kind == "invariant":
+                            import re as _re
+                            m2 = _re.match(r"^(\w+)\s+(?:\[([^\]]+)\]\s*)?(.*)$", cl.text.strip(), _re.S)
+                            if m2 and m2.group(1) in locknames:
+                                cl.extra["lock"] = m2.group(1)
+                                if m2.group(2):
+                                    cl.label = m2.group(2)
+                                cl.text = m2.group(3)
                             cl.ast = parse_expr(cl.text)
                         elif cl.kind == "nonnil":
                             cl.extra["fields"] = [x.strip() for x in cl.text.split(",") if x.strip()]
@@ -616,18 +626,8 @@ class Engine(Executor, Calls):
         fr.visits[head] = -10 ** 6
         return None
 
-    # concurrency hooks: overridden in conc.py -------------------------
-    def on_lock(self, fr, st, p, ins, mode):
-        pass
-
-    def on_unlock(self, fr, st, p, ins, mode):
-        pass
-
     def on_atomic(self, fr, st, p, ins, what):
         pass
-
-    def lock_key(self, st, p):
-        return (p.cell, p.path)
 
     def ghost_value(self, ctx, n):
         return None
@@ -801,6 +801,73 @@ class Engine(Executor, Calls):
         return sorted(set(bad))
 
 
+def _coverage_method():
+    def verify_coverage(self, decl):
+        """coverage [label] {Cxx}: T1, T2 -- structural obligation on the generated cbor-gen codecs: every declared field is
+        written under its own key, the map header counts the fields, and the decoder has a case that stores into it"""
+        ir = self.ir
+        cl = decl.clauses[0]
+        self.cur = {"short": short(decl.pkg) + ".codec", "props": set(decl.tags), "safety_props": set(decl.tags), "decl": decl, "fn": None}
+        for tn in [x.strip() for x in cl.text.split(",") if x.strip()]:
+            T = self.resolve_type_name(tn, decl.pkg)
+            fields = [f["name"] for f in ir.struct_decls.get(T, [])]
+            o = self.obl("coverage", "%s:%s" % (decl.name, tn), decl.tags)
+            if not fields:
+                o.instances += 1
+                o.failed.append({"reason": "no struct declaration found for %s" % tn})
+                continue
+            fm = ir.funcs.get("(*%s).MarshalCBOR" % T)
+            fu = ir.funcs.get("(*%s).UnmarshalCBOR" % T)
+            if fm is None or fu is None:
+                o.instances += 1
+                o.failed.append({"reason": "generated MarshalCBOR/UnmarshalCBOR for %s not found" % tn})
+                continue
+
+            def scan(fn):
+                faddr, strs, consts_stored = set(), set(), []
+                for b in fn["blocks"]:
+                    for ins in b["instrs"]:
+                        if ins["op"] == "FieldAddr" and ins["aux"].get("struct") == T:
+                            faddr.add(ins["aux"]["field"])
+                        for a in ins["args"]:
+                            if a.get("k") == "const" and a.get("n") == "string":
+                                strs.add(a["v"])
+                        if ins["op"] == "Store" and ins["args"][1].get("k") == "const" and ins["args"][1].get("n") == "int":
+                            consts_stored.append(int(ins["args"][1]["v"]))
+                return faddr, strs, consts_stored
+            ma, ms, mc = scan(fm)
+            ua, us, _ = scan(fu)
+            n = len(fields)
+            header_ok = (n < 24 and (0xa0 + n) in mc) or (24 <= n < 256 and any(mc[i] == 184 and mc[i + 1] == n for i in range(len(mc) - 1)))
+            for f in fields:
+                o.instances += 1
+                problems = []
+                if f not in ma:
+                    problems.append("MarshalCBOR never reads field %s" % f)
+                if f not in ms:
+                    problems.append("MarshalCBOR never writes key %r" % f)
+                if f not in us:
+                    problems.append("UnmarshalCBOR has no case %r" % f)
+                if f not in ua:
+                    problems.append("UnmarshalCBOR never stores into field %s" % f)
+                if problems:
+                    o.failed.append({"reason": "; ".join(problems), "field": f})
+                else:
+                    o.proved += 1
+            o.instances += 1
+            if header_ok:
+                o.proved += 1
+            else:
+                o.failed.append({"reason": "map header of %s does not announce %d fields" % (tn, n)})
+            extra = [k for k in ma if k not in fields]
+            o.solver = "structural (SSA scan)"
+        self.cur = None
+    return verify_coverage
+
+
+Engine.verify_coverage = None
+
+
 def _lemma_methods():
     import re
 
@@ -951,3 +1018,4 @@ def first_model(st):
 
 
 Engine.verify_lemma, Engine.spec_type = _lemma_methods()
+Engine.verify_coverage = _coverage_method()
